@@ -899,10 +899,14 @@ class _SFTPFileCopier(_SFTPParallelIO[int]):
             else:
                 ranges = _request_nonsparse_range(0, self._total_bytes)
 
+            range_end = 0
+
             if self._srcfs == self._dstfs and \
                     isinstance(self._srcfs, SFTPClient) and \
                     self._srcfs.supports_remote_copy:
                 async for offset, length in ranges:
+                    range_end = offset + length
+
                     await self._srcfs.remote_copy(
                         cast(SFTPClientFile, self._src),
                         cast(SFTPClientFile, self._dst),
@@ -916,6 +920,8 @@ class _SFTPFileCopier(_SFTPParallelIO[int]):
                                                self._total_bytes)
             else:
                 async for self._offset, self._bytes_left in ranges:
+                    range_end = self._offset + self._bytes_left
+
                     async for _, datalen in self.iter():
                         self._bytes_copied += datalen
 
@@ -931,6 +937,11 @@ class _SFTPFileCopier(_SFTPParallelIO[int]):
                     setattr(exc, 'offset', self._bytes_copied)
 
                     raise exc
+
+            if self._sparse and range_end < self._total_bytes:
+                # The source ends in a hole, which no range covers, so
+                # extend the destination to the length of the source
+                await self._dst.write(b'\0', self._total_bytes - 1)
         finally:
             if self._src: # pragma: no branch
                 await self._src.close()
